@@ -119,7 +119,7 @@ func rlEffective(method string, k, mw int64) (int64, int64) {
 }
 
 func checkC05(rep *vk.Report) {
-	rep.Rule = "(A) sequential histories of 10-60 calls over the six non-blocking permit methods (permits 1-7, max waits 0/1ns/unit-1/unit/unit+1/3 units/none) on a virtual stopwatch with instants on exact slot/period boundaries and idle gaps of 0-20 units, checked against an exact slot/period model, a twin limiter fed single-permit requests and skipping refused ones, and slot/period occupancy computed from observed waits only; (B) concurrent callers plus a clock-advancing controller, history checked with porcupine against the same model; (C) blocking acquires and executions in real time with a frozen stopwatch: sorted blocking durations must dominate {0,I,2I,..}, deadlines shorter than the wait must fail. Non-trivial: a history with >=1 positive wait, >=1 refusal and >=1 idle gap >=2 units; distinct by (type, unit, boundary kinds, deficit-then-gap, multi-permit)."
+	rep.Rule = "(A) sequential histories of 10-60 calls over the six non-blocking permit methods (permits 1-7, max waits 0/1ns/unit-1/unit/unit+1/3 units/none/negative) on a virtual stopwatch with instants on exact slot/period boundaries and idle gaps of 0-20 units, checked against an exact slot/period model, a twin limiter fed single-permit requests and skipping refused ones, and slot/period occupancy computed from observed waits only; (B) concurrent callers plus a clock-advancing controller, history checked with porcupine against the same model; (C) blocking acquires and executions in real time with a frozen stopwatch: sorted blocking durations must dominate {0,I,2I,..}, deadlines shorter than the wait must fail. Non-trivial: a history with >=1 positive wait, >=1 refusal and >=1 idle gap >=2 units; distinct by (type, unit, boundary kinds, deficit-then-gap, multi-permit)."
 	rep.Assumptions = []string{
 		"virtual stopwatch installed through ratelimiter.VerifWithStopwatch (verif build tag); it is read under the limiter's own lock, so clock+limiter form one linearizable object",
 		"real-time part asserts only 'not earlier than' on the monotonic clock",
@@ -197,15 +197,22 @@ func rlSequential(rep *vk.Report, idx int) {
 		}
 		method := methods[r.IntN(len(methods))]
 		k := int64(1 + r.IntN(7))
-		mw := vk.Pick(r, int64(0), 1, u-1, u, u+1, 3*u, -1, 2*u)
-		if mw < -1 {
-			mw = 0
-		}
+		// -1 is the library's "no max wait"; any other negative max wait (a deadline that has already passed) can never be
+		// met, not even by a wait of 0, so the request is refused at no cost
+		mw := vk.Pick(r, int64(0), 1, u-1, u, u+1, 3*u, -1, 2*u, 0, 1, u, 3*u, -2, -u)
 		ek, emw := rlEffective(method, k, mw)
 		if ek > 1 {
 			multi = true
 		}
 		got := callLimiter(lim, method, k, mw)
+		if emw < -1 {
+			// A14: a negative max wait other than -1 cannot be met by any positive wait, so a request that would have to wait
+			// must be refused at no cost; whether a request that need not wait at all "exceeds" it is not stated (the smooth
+			// limiter refuses it, the bursty one grants it) and is accepted either way
+			if m.Clone().Acquire(now, ek, -1) == 0 && got == 0 {
+				emw = -1
+			}
+		}
 		want := m.Acquire(now, ek, emw)
 		ops = append(ops, rlOp{now, method, ek, emw, got})
 		rep.Count("A_calls", 1)
